@@ -112,42 +112,193 @@ func init() {
 				t = pt.Elem()
 				v = e.load(p)
 			}
-			e.jsonBlobs = append(e.jsonBlobs, jsonBlob{t: t, v: e.jsonStrip(t, v)})
 			e.warnings["encoding/json modelled as an identity codec on Go values (text not modelled)"]++
+			stripped := e.jsonStrip(t, v)
+			// Marshal is a function of the value: equal values get the same token
+			for i, b := range e.jsonBlobs {
+				if types.Identical(b.t, t) && e.jsonSameValue(b.v, stripped) {
+					return Tuple{e.newByteSlice(e.jsonToken(i)), Iface{}}
+				}
+			}
+			e.jsonBlobs = append(e.jsonBlobs, jsonBlob{t: t, v: stripped})
 			return Tuple{e.newByteSlice(e.jsonToken(len(e.jsonBlobs) - 1)), Iface{}}
 		}
 		I["encoding/json.Unmarshal"] = func(e *Exec, fr *frame, args []Value) Value {
 			data := args[0].(Slice)
 			tgt := args[1].(Iface)
-			bs := e.byteSliceTerms(data)
-			var sb strings.Builder
-			for _, b := range bs {
-				if !b.IsConst() {
-					e.unsupported("json.Unmarshal of symbolic bytes")
-				}
-				sb.WriteByte(byte(b.Val))
+			return jsonUnmarshalTerms(e, e.byteSliceTerms(data), tgt)
+		}
+		// streaming decoder over a bytes.Reader: one Decode behaves as Unmarshal of the remaining bytes,
+		// the next reports io.EOF; Token reports io.EOF at once (a modelled Marshal token has no object
+		// keys to inspect, and what Marshal produces has no duplicate keys)
+		I["encoding/json.NewDecoder"] = func(e *Exec, fr *frame, args []Value) Value {
+			r := args[0].(Iface)
+			rp, ok := r.v.(Pointer)
+			if !ok || rp.loc == nil || !strings.HasSuffix(r.t.String(), "bytes.Reader") {
+				e.unsupported("json.NewDecoder over a reader that is not *bytes.Reader")
 			}
-			s := sb.String()
-			if !strings.HasPrefix(s, jsonTokPrefix) || len(s) != len(jsonTokPrefix)+9 {
-				// not produced by the modelled Marshal: treat as malformed JSON
-				e.warnings["json.Unmarshal of bytes not produced by the modelled Marshal: reported as a syntax error"]++
-				return e.newOpaqueErr("json: syntax error (modelled)", nil)
-			}
-			var id int
-			fmt.Sscanf(s[len(jsonTokPrefix):], "%08d", &id)
-			if id < 0 || id >= len(e.jsonBlobs) {
-				return e.newOpaqueErr("json: syntax error (modelled)", nil)
-			}
-			blob := e.jsonBlobs[id]
-			pt, ok := tgt.t.Underlying().(*types.Pointer)
+			s, ok := e.loadLoc(rp.loc.kids[0]).(Slice)
 			if !ok {
-				return e.newOpaqueErr("json: Unmarshal(non-pointer)", nil)
+				e.unsupported("json.NewDecoder: unexpected bytes.Reader layout")
 			}
-			if !types.Identical(pt.Elem(), blob.t) {
-				e.unsupported("json.Unmarshal into " + pt.Elem().String() + " of a value marshalled as " + blob.t.String())
+			pos, ok := e.loadLoc(rp.loc.kids[1]).(*Term)
+			if !ok || !pos.IsConst() {
+				e.unsupported("json.NewDecoder: symbolic reader position")
 			}
-			e.store(tgt.v.(Pointer), e.jsonStrip(blob.t, blob.v))
-			return Iface{}
+			var bs []*Term
+			if s.len > 0 {
+				bs = e.byteSliceTerms(s)[int(pos.Val):]
+			}
+			l := e.newLoc(types.Typ[types.Uint8])
+			if e.jsonDecs == nil {
+				e.jsonDecs = map[*Loc]*jsonDecState{}
+			}
+			e.jsonDecs[l] = &jsonDecState{data: bs}
+			return Pointer{loc: l}
+		}
+		jsonDecOf := func(e *Exec, v Value) *jsonDecState {
+			p, ok := v.(Pointer)
+			if !ok || p.loc == nil || e.jsonDecs[p.loc] == nil {
+				e.unsupported("json.Decoder method on a decoder not created by the modelled NewDecoder")
+			}
+			return e.jsonDecs[p.loc]
+		}
+		ioEOF := func(e *Exec) Value {
+			pkg := e.prog.ssaProg.ImportedPackage("io")
+			if pkg == nil || pkg.Var("EOF") == nil {
+				e.unsupported("json.Decoder: io.EOF not found")
+			}
+			return e.loadLoc(e.globalLoc(pkg.Var("EOF")))
+		}
+		I["(*encoding/json.Decoder).DisallowUnknownFields"] = func(e *Exec, fr *frame, args []Value) Value {
+			jsonDecOf(e, args[0])
+			return nil
+		}
+		I["(*encoding/json.Decoder).Decode"] = func(e *Exec, fr *frame, args []Value) Value {
+			st := jsonDecOf(e, args[0])
+			if st.done {
+				return ioEOF(e)
+			}
+			st.done = true
+			return jsonUnmarshalTerms(e, st.data, args[1].(Iface))
+		}
+		I["(*encoding/json.Decoder).Token"] = func(e *Exec, fr *frame, args []Value) Value {
+			jsonDecOf(e, args[0])
+			e.warnings["json.Decoder.Token reports io.EOF at once (token stream not modelled)"]++
+			return Tuple{Iface{}, ioEOF(e)}
 		}
 	})
+}
+
+type jsonDecState struct {
+	data []*Term
+	done bool
+}
+
+func jsonUnmarshalTerms(e *Exec, bs []*Term, tgt Iface) Value {
+	var sb strings.Builder
+	for _, b := range bs {
+		if !b.IsConst() {
+			e.unsupported("json.Unmarshal of symbolic bytes")
+		}
+		sb.WriteByte(byte(b.Val))
+	}
+	s := sb.String()
+	if !strings.HasPrefix(s, jsonTokPrefix) || len(s) != len(jsonTokPrefix)+9 {
+		// not produced by the modelled Marshal: treat as malformed JSON
+		e.warnings["json.Unmarshal of bytes not produced by the modelled Marshal: reported as a syntax error"]++
+		return e.newOpaqueErr("json: syntax error (modelled)", nil)
+	}
+	var id int
+	fmt.Sscanf(s[len(jsonTokPrefix):], "%08d", &id)
+	if id < 0 || id >= len(e.jsonBlobs) {
+		return e.newOpaqueErr("json: syntax error (modelled)", nil)
+	}
+	blob := e.jsonBlobs[id]
+	pt, ok := tgt.t.Underlying().(*types.Pointer)
+	if !ok {
+		return e.newOpaqueErr("json: Unmarshal(non-pointer)", nil)
+	}
+	if !types.Identical(pt.Elem(), blob.t) {
+		e.unsupported("json.Unmarshal into " + pt.Elem().String() + " of a value marshalled as " + blob.t.String())
+	}
+	e.store(tgt.v.(Pointer), e.jsonStrip(blob.t, blob.v))
+	return Iface{}
+}
+
+// jsonSameValue is a conservative syntactic equality (false when unsure) used to give equal
+// values equal Marshal tokens.
+func (e *Exec) jsonSameValue(a, b Value) bool {
+	switch av := a.(type) {
+	case *Term:
+		bv, ok := b.(*Term)
+		if !ok {
+			return false
+		}
+		if av == bv {
+			return true
+		}
+		return av.IsConst() && bv.IsConst() && av.W == bv.W && av.Val == bv.Val
+	case *Str:
+		bv, ok := b.(*Str)
+		if !ok {
+			return false
+		}
+		ab, bb := e.strBytes(av), e.strBytes(bv)
+		if len(ab) != len(bb) {
+			return false
+		}
+		for i := range ab {
+			if !e.jsonSameValue(ab[i], bb[i]) {
+				return false
+			}
+		}
+		return true
+	case Struct:
+		bv, ok := b.(Struct)
+		if !ok || len(av) != len(bv) {
+			return false
+		}
+		for i := range av {
+			if !e.jsonSameValue(av[i], bv[i]) {
+				return false
+			}
+		}
+		return true
+	case Array:
+		bv, ok := b.(Array)
+		if !ok || len(av) != len(bv) {
+			return false
+		}
+		for i := range av {
+			if !e.jsonSameValue(av[i], bv[i]) {
+				return false
+			}
+		}
+		return true
+	case Slice:
+		bv, ok := b.(Slice)
+		if !ok || (av.arr == nil) != (bv.arr == nil) || av.len != bv.len {
+			return false
+		}
+		for i := 0; i < av.len; i++ {
+			if !e.jsonSameValue(e.loadLoc(av.arr.kids[av.off+i]), e.loadLoc(bv.arr.kids[bv.off+i])) {
+				return false
+			}
+		}
+		return true
+	case Pointer:
+		bv, ok := b.(Pointer)
+		if !ok {
+			return false
+		}
+		if av.IsNil() || bv.IsNil() {
+			return av.IsNil() && bv.IsNil()
+		}
+		return e.jsonSameValue(e.load(av), e.load(bv))
+	case Iface:
+		bv, ok := b.(Iface)
+		return ok && av.t == nil && bv.t == nil
+	}
+	return false
 }
